@@ -1,4 +1,5 @@
 import QProofs.C08
+import QProofs.C09
 import QGen.C08
 /-!
 # C08 — tomography forward model = circuit Born-rule statistics (property theorems)
@@ -36,8 +37,10 @@ theorem predictRaw_mkCoeffs [Field K] (per : List (List (List K × K))) (var : L
   exact coeffsFrom_map 0 per (fun a b => ldot a var + b)
 
 /-- C08.1 (QST, both flags): every entry `(s, x)` of the dictionaries predicts outcome `x` of the circuit
-`state → povm_s` run on the state built from `var`; schedule by schedule, same order. No hypothesis on `var`,
-on the testers or on the schedule list. -/
+`state → povm_s` run on the state built from `var`; schedule by schedule, same order. No hypothesis on the testers or
+on the schedule list.  Remark: the identity is about the truncating dot product `ldot` (`zipWith`): for a `var` whose
+length is not `num_variables` both sides truncate alike, whereas numpy raises — that shape error is modelled by
+`predict`, and `qst_cols` gives the row length that makes `predict` succeed. -/
 theorem qst_affine [Field K] (flag : Bool) (r : K) (povms : List (List (List K))) (scheds : List Nat)
     (cs : List (Coeff K)) (var : List K) (h : qstCoeffs flag r povms scheds = some cs) :
     ∃ per, cs = mkCoeffs per ∧
@@ -150,19 +153,45 @@ theorem qmpt_walk_eq_born [Field K] [DecidableEq K] (r : K) (povm : List (List K
   rw [ldot_comm, ldot_div_left, ldot_comm, ← mul_div_assoc]
   exact mul_div_cancel_left₀ _ hne
 
-/-- C08.1 corollary: whenever the dictionary entries predict the circuit schedule by schedule,
-`calc_matA() @ var + calc_vecB()` is the concatenation of the circuit's distributions in schedule order. -/
-theorem predict_eq_circuit [Field K] (per : List (List (List K × K))) (var : List K)
-    (dists : List (List K)) (h : dists = per.map fun rows => rows.map (rowVal var)) :
-    predictRaw (mkCoeffs per) var = dists.flatten := by
-  rw [h, predictRaw_mkCoeffs]
+/-- C08.1 (QMPT) lifted to the executed circuit walk (driver op `circuit … walk=1`): if on every scheduled tester state
+no outcome of the measurement process built from `var` has `p_x = 0`, the walked circuit of all schedules equals the
+ideal one, hence (with `qmpt_affine`) the forward model. -/
+theorem qmptCircuitWalk_eq [Field K] [DecidableEq K] (flag : Bool) (r : K) (n m : Nat) (states : List (List K))
+    (povms : List (List (List K))) (scheds : List (Nat × Nat)) (var : List K)
+    (hp : ∀ ij ∈ scheds, ∀ rho, states[ij.1]? = some rho →
+      ∀ hs ∈ mprocessOf flag n m var, r * firstEntry (matVec hs rho) ≠ 0) :
+    qmptCircuitWalk flag r n m states povms scheds var = qmptCircuit flag n m states povms scheds var := by
+  unfold qmptCircuitWalk qmptCircuit
+  apply mapM_opt_congr
+  rintro ⟨i, j⟩ hij
+  cases hs : states[i]? with
+  | none => simp [hs]
+  | some rho =>
+    cases hq : povms[j]? with
+    | none => simp [hs, hq]
+    | some povm =>
+      simp only [hs, hq, Option.bind_eq_bind, Option.bind_some, Option.pure_def, Option.some.injEq]
+      exact qmpt_walk_eq_born r povm _ rho (hp (i, j) hij rho hs)
 
-/-- C08.3 `full rank ⇔ informationally complete`: the forward model separates two variable vectors iff the
-schedule-by-schedule statistics do.  With `qst_affine / povmt_affine / qpt_affine / qmpt_affine` the right-hand
-side is the circuits' statistics map `var ↦ (Born distributions of all schedules)`, whose injectivity is the
-definition of an informationally complete tester set; the left-hand side is injectivity of
-`var ↦ matA·var + vecB`, i.e. full column rank of matA. (`P` restricts to variable vectors of the right length.) -/
-theorem fullrank_iff_IC [Field K] (per : List (List (List K × K))) (P : List K → Prop) :
+/-- C08.1 corollary, in the form the estimators use it: from the conclusion of any of the four `*_affine` theorems,
+`calc_matA() @ var + calc_vecB()` **is** the concatenation, in schedule order, of the distributions the circuits produce
+(the existential `dists` is the circuit's own output, not a hypothesis). -/
+theorem predict_eq_circuit_of_affine [Field K] (cs : List (Coeff K)) (circuit : Option (List (List K)))
+    (var : List K)
+    (h : ∃ per, cs = mkCoeffs per ∧ circuit = some (per.map fun rows => rows.map (rowVal var))) :
+    ∃ dists, circuit = some dists ∧ predictRaw cs var = dists.flatten := by
+  obtain ⟨per, rfl, hc⟩ := h
+  exact ⟨_, hc, predictRaw_mkCoeffs per var⟩
+
+/-- C08.1 for QST in that form: `matA·var + vecB` = concatenated circuit distributions, for every `var`. -/
+theorem qst_predict_eq_circuit [Field K] (flag : Bool) (r : K) (povms : List (List (List K)))
+    (scheds : List Nat) (cs : List (Coeff K)) (var : List K) (h : qstCoeffs flag r povms scheds = some cs) :
+    ∃ dists, qstCircuit flag r povms scheds var = some dists ∧ predictRaw cs var = dists.flatten :=
+  predict_eq_circuit_of_affine cs _ var (qst_affine flag r povms scheds cs var h)
+
+/-- bookkeeping lemma for C08.3 (no rank content): `var ↦ matA·var + vecB` separates two vectors iff the
+schedule-by-schedule statistics do (flattening lists of equal shape is injective). -/
+theorem predictRaw_injective_iff [Field K] (per : List (List (List K × K))) (P : List K → Prop) :
     (∀ v v', P v → P v' → predictRaw (mkCoeffs per) v = predictRaw (mkCoeffs per) v' → v = v') ↔
     (∀ v v', P v → P v' →
       (per.map fun rows => rows.map (rowVal v)) = (per.map fun rows => rows.map (rowVal v')) → v = v') := by
@@ -174,6 +203,37 @@ theorem fullrank_iff_IC [Field K] (per : List (List (List K × K))) (P : List K 
     apply h v v' hv hv'
     rw [predictRaw_mkCoeffs, predictRaw_mkCoeffs] at hp
     exact flatten_map_inj (rowVal v) (rowVal v') per hp
+
+/-- C08.3a two variable vectors have the same statistics iff matA maps them to the same vector: the offsets `vecB`
+cancel, so informational completeness is a property of matA alone. (`A` = `calc_matA()` as executable matrix.) -/
+theorem statistics_eq_iff_matA [Field K] {m n : Nat} (per : List (List (List K × K))) (A : Mat K m n)
+    (hA : QM.C09.rowsOf A = matA (mkCoeffs per)) (v v' : Vec K n) :
+    ((per.map fun rows => rows.map (rowVal v.toList)) = per.map fun rows => rows.map (rowVal v'.toList)) ↔
+      A.mulVec v = A.mulVec v' :=
+  dists_eq_iff_mulVec per A hA v v'
+
+/-- C08.3b `full column rank ⇔ informationally complete`: `rank(matA) = num_variables` (Mathlib's `Matrix.rank`, the
+quantity `np.linalg.matrix_rank` approximates) iff the statistics map `var ↦ (distributions of all schedules)` is
+injective.  With the `*_affine` theorems the statistics are the circuits' Born distributions on the object built from
+`var`, so the right-hand side is the definition of an informationally complete tester set. -/
+theorem rank_iff_IC [Field K] {m n : Nat} (per : List (List (List K × K))) (A : Mat K m n)
+    (hA : QM.C09.rowsOf A = matA (mkCoeffs per)) :
+    A.toM.rank = n ↔ ∀ v v' : Vec K n,
+      ((per.map fun rows => rows.map (rowVal v.toList)) = per.map fun rows => rows.map (rowVal v'.toList)) → v = v' :=
+  rank_iff_IC' per A hA
+
+/-- C08.3c the coded verdict `is_fullrank_matA` (`min(shape) == rank`, exact rank) on a forward model with at least as
+many rows as variables: true iff the tester set is informationally complete. -/
+theorem is_fullrank_iff_IC [Field K] {m n : Nat} (per : List (List (List K × K))) (A : Mat K m n)
+    (hA : QM.C09.rowsOf A = matA (mkCoeffs per)) (hmn : n ≤ m) :
+    QM.C09.isFullRank m n A.toM.rank = true ↔ ∀ v v' : Vec K n,
+      ((per.map fun rows => rows.map (rowVal v.toList)) = per.map fun rows => rows.map (rowVal v'.toList)) → v = v' := by
+  rw [← rank_iff_IC per A hA]
+  unfold QM.C09.isFullRank
+  rw [Nat.min_eq_right hmn]
+  constructor
+  · intro h; exact (beq_iff_eq.1 h).symm
+  · intro h; exact beq_iff_eq.2 h.symm
 
 /-- C08.2 `matA_cols` (QST): with tester vectors of length `n`, every row of matA has `n − 1` (flag) resp. `n`
 entries = `num_variables`. -/
@@ -222,7 +282,9 @@ theorem qmpt_cols [Field K] (flag : Bool) (m : Nat) (rho : List K) (povm : List 
 /-- C08.4 `calc_prob_dists` as coded (`reshape((num_schedules, -1))`, then `truncate_and_normalize` row by row):
 it returns the circuit's per-schedule distributions (each passed through `truncate_and_normalize`, the identity on
 proper distributions by `truncNorm_id`) **if and only if all schedules have the same number of outcomes**.
-This is the exact guard under which the coded grouping is right; outside it the code raises or regroups silently
+This is the exact guard under which the coded grouping is right (remark: for a row whose entries are all below `eps`
+`truncNorm` divides by 0 — Lean's `x/0 = 0`, numpy's nan; the statement compares the model's two sides and is meant
+for proper distributions, see `truncNorm_id*`); outside it the code raises or regroups silently
 (defect D8: `calcProbDists_mixed_counts_fails`, `calcProbDists_mixed_counts_regroups_fails`). -/
 theorem calcProbDists_eq_circuit_iff [Field K] [LinearOrder K] (eps : K) (cs : List (Coeff K))
     (var : List K) (dists : List (List K)) (hk : 0 < dists.length)
@@ -320,19 +382,28 @@ theorem gen_keys (per : List (List (List K × K))) :
       rows.zipIdx.map fun (ab, x) => ⟨QGen.C08.qst_key si x, ab.1, ab.2⟩ :=
   ⟨rfl, rfl, rfl, rfl, rfl⟩
 
-/-- C08.src-e positions inside a schedule, as the code reads them: QST `[unknown state, tester povm (last item)]`,
-POVMT `[tester state, unknown povm]`, QPT / QMPT `[tester state, unknown, tester povm]`.  The model's schedules are the
-pairs (tester state index, tester povm index) taken from exactly these positions. -/
-theorem gen_schedule_items :
-    QGen.C08.qst_target_item = 0 ∧ QGen.C08.qst_tester_item = -1 ∧
-    QGen.C08.povmt_state_item = 0 ∧ QGen.C08.povmt_target_item = 1 ∧
-    QGen.C08.qpt_state_item = 0 ∧ QGen.C08.qpt_target_item = 1 ∧ QGen.C08.qpt_povm_item = 2 ∧
-    QGen.C08.qmpt_target_item = 1 := by decide
+/-- C08.src-e positions inside a schedule, as the code reads them (`_set_coeffs`, `calc_c_qpt`, `_get_target_index`):
+the model's decoding `schedPair` of a schedule into (tester state index, tester POVM index) is the decoding through the
+GENERATED item positions, and the unknown sits at the generated target position (QST item 0, POVMT / QPT / QMPT item 1),
+which is never a tester position. -/
+theorem gen_schedPair (sched : List Nat) :
+    schedPair "qst" sched = (do let j ← itemAt sched QGen.C08.qst_tester_item; pure (0, j)) ∧
+    schedPair "povmt" sched = (do let i ← itemAt sched QGen.C08.povmt_state_item; pure (i, 0)) ∧
+    schedPair "qpt" sched = (do let i ← itemAt sched QGen.C08.qpt_state_item
+                                let j ← itemAt sched QGen.C08.qpt_povm_item; pure (i, j)) ∧
+    QGen.C08.qst_target_item = 0 ∧ QGen.C08.povmt_target_item = 1 ∧ QGen.C08.qpt_target_item = 1 ∧
+    QGen.C08.qmpt_target_item = 1 ∧
+    QGen.C08.qst_target_item ≠ QGen.C08.qst_tester_item ∧ QGen.C08.povmt_target_item ≠ QGen.C08.povmt_state_item ∧
+    QGen.C08.qpt_target_item ≠ QGen.C08.qpt_state_item ∧ QGen.C08.qpt_target_item ≠ QGen.C08.qpt_povm_item :=
+  ⟨rfl, rfl, rfl, rfl, rfl, rfl, rfl, by decide, by decide, by decide, by decide⟩
 
-/-- C08.src-f the constants of `cqpt_to_cqmpt` (`d_qpt = c[:, :dim²]`, `e_qpt = c[:, dim²:]`, `m−1` resp. `m` diagonal
-blocks, `b_1 = d_qpt.T[0]`) and `num_outcomes = povm outcomes × m-process outcomes` as read from the source; the model's
-last block row written with them. -/
-theorem gen_qmpt_consts [Neg K] [Zero K] (d m p : Nat) (c : List K) :
+/-- C08.src-f `_partial`: the constants of `cqpt_to_cqmpt` (`d_qpt = c[:, :dim²]`, `e_qpt = c[:, dim²:]`, `m−1` resp. `m`
+diagonal blocks, `b_1 = d_qpt.T[0]`), `num_outcomes = povm outcomes × m-process outcomes`, and the model's `cqptToCqmpt` /
+`qmptLastRow` written with them.
+Missing: the block_diag / hstack / vstack assembly itself is hand-modelled, not generated; it is pinned by the
+translator's exact-statement check of `cqpt_to_cqmpt` (any edit there makes the translator raise) and by the `coeffs`
+correspondence, and `qmpt_affine` proves the hand model right. -/
+theorem gen_qmpt_consts_partial [Neg K] [Zero K] (d m p : Nat) (c : List K) (cq : List (List K)) :
     QGen.C08.qmpt_d_cols d = d ^ 2 ∧ QGen.C08.qmpt_e_from d = d ^ 2 ∧ QGen.C08.qmpt_blocks_flag m = m - 1 ∧
     QGen.C08.qmpt_blocks m = m ∧ QGen.C08.qmpt_b1_col = 0 ∧ QGen.C08.qmpt_num_outcomes p m = p * m ∧
     qmptLastRow (QGen.C08.qmpt_d_cols d) m c =
@@ -341,8 +412,16 @@ theorem gen_qmpt_consts [Neg K] [Zero K] (d m p : Nat) (c : List K) :
             (lneg (c.take (QGen.C08.qmpt_d_cols d)) ++
               zeros (QGen.C08.qmpt_d_cols d * QGen.C08.qmpt_d_cols d - QGen.C08.qmpt_d_cols d)) ++
             c.drop (QGen.C08.qmpt_e_from d), c0)
-       | [] => none) :=
-  ⟨rfl, rfl, rfl, rfl, rfl, rfl, rfl⟩
+       | [] => none) ∧
+    cqptToCqmpt false (QGen.C08.qmpt_d_cols d) m cq =
+      some ((List.range (QGen.C08.qmpt_blocks m)).flatMap fun k => cq.map fun c' =>
+        (blockRow (QGen.C08.qmpt_d_cols d * QGen.C08.qmpt_d_cols d) (QGen.C08.qmpt_blocks m) k c', (0 : K))) ∧
+    cqptToCqmpt true (QGen.C08.qmpt_d_cols d) m cq =
+      (do let a1 ← cq.mapM (qmptLastRow (QGen.C08.qmpt_d_cols d) m)
+          pure (((List.range (QGen.C08.qmpt_blocks_flag m)).flatMap fun k => cq.map fun c' =>
+            (blockRow (QGen.C08.qmpt_d_cols d * QGen.C08.qmpt_d_cols d) (QGen.C08.qmpt_blocks_flag m) k c' ++
+              zeros (QGen.C08.qmpt_d_cols d * QGen.C08.qmpt_d_cols d - QGen.C08.qmpt_e_from d), (0 : K))) ++ a1)) :=
+  ⟨rfl, rfl, rfl, rfl, rfl, rfl, rfl, rfl, rfl⟩
 
 /-- C08.src-g the headline identity on the generated QST row: what the source's expressions put into the dictionary
 predicts the Born value on the state built from `var`. -/
@@ -353,6 +432,8 @@ theorem gen_qst_row_affine [Field K] (flag : Bool) (r : K) (vec var a : List K) 
 
 /-! ## non-vacuity -/
 
+example : schedPair "qst" [0, 2] = some (0, 2) ∧ schedPair "qpt" [3, 0, 1] = some (3, 1) ∧ schedPair "povmt" [4, 0] = some (4, 0) ∧
+    schedPair "qpt" [3, 0] = none := by decide
 example : QGen.C08.qst_row true (2 : Rat) [1, 3, 5] = some ([3, 5], 1/2) := by decide +kernel
 example : QGen.C08.qpt_row true 2 ([1, 2, 3, 4] : List Rat) = some ([3, 4], 1) := by decide +kernel
 example : QGen.C08.povmt_row true (2 : Rat) 3 [1, 2] 2 = some ([-1, -2, -1, -2], 2) := by decide +kernel
@@ -397,5 +478,53 @@ example : (qmptCoeffs (K := Rat) true 2 [[1, 2]] [[[1, 1], [3, -1]]] [(0, 0)]).m
       (fun cs => cs.map fun c => ldot c.a [1, 2, 3, 4, 5, 6] + c.b)
     = (qmptCircuit true 2 2 [[1, 2]] [[[1, 1], [3, -1]]] [(0, 0)] [1, 2, 3, 4, 5, 6]).map List.flatten := by
   decide +kernel
+
+/-! ### informational completeness: 1-qubit QST, flag on, testers X, Y, Z (and the incomplete set X, Y) -/
+
+/-- the dictionary of the X, Y, Z tester set (`r = 1` stands for `√d`; basis coefficients `(1/2, ±1/2 e_i)`) -/
+example : qstCoeffs true (1 : Rat)
+    [[[1/2, 1/2, 0, 0], [1/2, -1/2, 0, 0]], [[1/2, 0, 1/2, 0], [1/2, 0, -1/2, 0]], [[1/2, 0, 0, 1/2], [1/2, 0, 0, -1/2]]]
+    [0, 1, 2] =
+    some (mkCoeffs [[([1/2, 0, 0], 1/2), ([-1/2, 0, 0], 1/2)], [([0, 1/2, 0], 1/2), ([0, -1/2, 0], 1/2)],
+      [([0, 0, 1/2], 1/2), ([0, 0, -1/2], 1/2)]]) := by decide +kernel
+
+/-- X, Y, Z: matA has rank 3 = number of variables, hence (by `rank_iff_IC`) the statistics determine the state -/
+example : ∀ v v' : Vec ℚ 3,
+    (([[(([1/2, 0, 0] : List ℚ), (1/2 : ℚ)), ([-1/2, 0, 0], 1/2)], [([0, 1/2, 0], 1/2), ([0, -1/2, 0], 1/2)],
+        [([0, 0, 1/2], 1/2), ([0, 0, -1/2], 1/2)]].map fun rows => rows.map (rowVal v.toList)) =
+     [[(([1/2, 0, 0] : List ℚ), (1/2 : ℚ)), ([-1/2, 0, 0], 1/2)], [([0, 1/2, 0], 1/2), ([0, -1/2, 0], 1/2)],
+        [([0, 0, 1/2], 1/2), ([0, 0, -1/2], 1/2)]].map fun rows => rows.map (rowVal v'.toList)) → v = v' := by
+  have hA : QM.C09.rowsOf (#v[#v[1/2, 0, 0], #v[-1/2, 0, 0], #v[0, 1/2, 0], #v[0, -1/2, 0], #v[0, 0, 1/2],
+      #v[0, 0, -1/2]] : Mat ℚ 6 3) = matA (mkCoeffs
+        [[(([1/2, 0, 0] : List ℚ), (1/2 : ℚ)), ([-1/2, 0, 0], 1/2)], [([0, 1/2, 0], 1/2), ([0, -1/2, 0], 1/2)],
+          [([0, 0, 1/2], 1/2), ([0, 0, -1/2], 1/2)]]) := by
+    rw [matA, dict_sorted]; decide +kernel
+  have hc : QM.C09.Contract (#v[#v[2, 0, 0], #v[0, 2, 0], #v[0, 0, 2]] : Mat ℚ 3 3)
+      (#v[#v[1/2, 0, 0], #v[-1/2, 0, 0], #v[0, 1/2, 0], #v[0, -1/2, 0], #v[0, 0, 1/2], #v[0, 0, -1/2]] : Mat ℚ 6 3) := by
+    unfold QM.C09.Contract; decide +kernel
+  exact (rank_iff_IC _ _ hA).1 (QM.C09.m_contract_rank hc.toM).1
+
+/-- X, Y only: the forward model is rank deficient — the z-component is invisible -/
+example : ¬ (Mat.toM (#v[#v[1/2, 0, 0], #v[-1/2, 0, 0], #v[0, 1/2, 0], #v[0, -1/2, 0]] : Mat ℚ 4 3)).rank = 3 := by
+  intro hr
+  have hA : QM.C09.rowsOf (#v[#v[1/2, 0, 0], #v[-1/2, 0, 0], #v[0, 1/2, 0], #v[0, -1/2, 0]] : Mat ℚ 4 3) =
+      matA (mkCoeffs [[(([1/2, 0, 0] : List ℚ), (1/2 : ℚ)), ([-1/2, 0, 0], 1/2)],
+        [([0, 1/2, 0], 1/2), ([0, -1/2, 0], 1/2)]]) := by
+    rw [matA, dict_sorted]; decide +kernel
+  have := (rank_iff_IC _ _ hA).1 hr (#v[0, 0, 1] : Vec ℚ 3) (#v[0, 0, 0] : Vec ℚ 3) (by decide +kernel)
+  revert this; decide +kernel
+
+/-- the executed circuit walk on an instance where no `p_x` vanishes: equal to the ideal circuit -/
+example : qmptCircuitWalk (K := Rat) true 1 2 2 [[1, 2]] [[[1, 1], [3, -1]]] [(0, 0)] [1, 2, 3, 4, 5, 6] =
+    qmptCircuit true 2 2 [[1, 2]] [[[1, 1], [3, -1]]] [(0, 0)] [1, 2, 3, 4, 5, 6] := by decide +kernel
+
+/-- hypotheses of `calcProbDists_eq_circuit_iff` on an instance with equal outcome counts `[2, 2]` -/
+example : predict (mkCoeffs [[(([1/2] : List Rat), (0 : Rat)), ([1/2], 0)], [([1/4], 0), ([3/4], 0)]]) [1] =
+    .ok [[(1/2 : Rat), 1/2], [1/4, 3/4]].flatten := by
+  unfold predict predictRaw; rw [dict_sorted]; decide +kernel
+
+/-- `qmpt_cols` on an instance (`n = 2`, `m = 2`, flag on: `m·n² − n = 6` columns in every row) -/
+example : (qmptSched (K := Rat) true 2 [1, 2] [[1, 1], [3, -1]]).map (fun rows => rows.map (·.1.length)) =
+    some [6, 6, 6, 6] := by decide +kernel
 
 end QM.C08
